@@ -28,7 +28,7 @@ TraceReset ==
   /\ fpc' = "idle" /\ mode' = "run" /\ rpc' = "none"
   /\ keyOf' = [w \in W |-> CHOOSE k \in Keys : TRUE] /\ nw' = 0
   /\ wst' = [w \in W |-> "none"] /\ acked' = <<>>
-  /\ nflush' = 0 /\ ncrash' = 0 /\ hist' = <<>>
+  /\ nflush' = 0 /\ ncrash' = 0 /\ dpc' = "none" /\ ndrop' = 0 /\ hist' = <<>>
 
 TraceWriteMem == IsEvent("WriteMem") /\ WriteMem(Trace[l].k)
 TraceWriteWal == IsEvent("WriteWal") /\ \E w \in W : WriteWal(w) /\ (writeReq % N) + 1 = Trace[l].p
